@@ -5,6 +5,7 @@ import LunarVerif.Proofs.C12Throttle
 import LunarVerif.Proofs.C12Live
 import LunarVerif.Proofs.C12Conc
 import LunarVerif.Proofs.C12Shared
+import LunarVerif.Proofs.C12SharedT
 /-!
 # C12 — Stored responses are replayed only for the same key and only while fresh
 
@@ -383,6 +384,34 @@ example : ((srun (Cache.init 0 false 0)
       .probe] : List (SOp Nat))).map fun r =>
         match r.out with | .early .. => 1 | .probed t h _ _ => t + h | _ => 0)
     = [0, 0, 1, 0, 0, 120] := by decide
+
+/-! ## several throttling configurations on the ONE shared plugin (endpoint + global remedies, before/after a reload) -/
+
+section
+variable {σ : Type} [DecidableEq σ]
+
+/-- Connection theorem, all histories over any number of configurations (own header name, type, statuses), every
+    clause for the configuration B that answers: an early response under B is justified by an earlier response for
+    the same (method, URL) and payload which some configuration A could store and which is fresh by A's reading; if B
+    is relative, B's header is readable in that response, `t − t₀ < value_B`, and the replay carries the stored
+    headers with B's header replaced by `value_B − (t − t₀)`; otherwise the stored headers unchanged.
+    (`num` = how a header value is read as seconds; `f` = the float64 absolute-TTL computation, `AbsTtlOk f`.) -/
+theorem shared_throttle_holds (f : AbsTtl) (hf : AbsTtlOk f) (num : σ → Option Int) (t0 : Int)
+    (ops : List (TSOp σ)) :
+    tsholds num (tsrun f num (Cache.init t0 false 0) ops) = true := by
+  have := tsrun_holdsRev f hf num ops (Cache.init t0 false 0) [] (tsinv_init f num t0) rfl
+  simpa [tsholds] using this
+
+end
+
+/-- non-vacuity: headers 1 ("retry-after") and 2 ("x-ratelimit-reset"), values are ns already; configuration A reads
+    header 2, B reads header 1 (both relative).  A stores a response carrying only header 2: a request under B finds
+    the entry but cannot read ITS header ⇒ no replay; under A the replay carries 30 − 20 = 10. -/
+example : ((tsrun absTtlExact (fun (v : Nat) => some (v : Int)) (Cache.init 0 false 0)
+    ([.resp ⟨⟨.rel, [429]⟩, 2⟩ 7 8 ⟨5, 429, 6, [(2, 30)]⟩, .skip 20, .req ⟨⟨.rel, [429]⟩, 1⟩ 7 8,
+      .req ⟨⟨.rel, [429]⟩, 2⟩ 7 8] : List (TSOp Nat))).map fun r =>
+        match r.out with | .early _ _ [(2, .ns n)] => n | .early .. => -1 | _ => 0)
+    = [0, 0, 0, 10] := by decide
 
 section
 variable {σ : Type} [DecidableEq σ]
